@@ -17,7 +17,9 @@ from synrbl.SynUtils.chem_utils import normalize_smiles, wc_similarity
 METHODS = ["pathway", "ecfp", "ecfp_inv"]
 ANAGRAM = ["CCCO.CCOC>>CCCOCCOC", "CCOC.CCCO>>CCCOCCOC", "CCN.CNC>>CCNCNC", "CNC.CCN.O>>CCNCNC.O", "CCCCO.CCOCC.CCCOC>>CCCCOCC",
            "CC(C)O.CCCO>>CC(C)OCCC.O", "OCCN.NCCO>>OCCNCCN.O", "CCCO.CCOC.COCC>>CCCOC", "c1ccccc1O.Oc1ccccc1>>c1ccccc1Oc1ccccc1.O",
-           "CCS.CSC>>CCSSC", "ClCCBr.BrCCCl>>ClCCCCBr.ClBr", "CC=O.C=CO>>CC(O)CC=O", "NCC=O.O=CCN>>NCC(O)C(N)C=O"]
+           "CCS.CSC>>CCSSC", "[2H]O[2H].CC(=O)Cl>>CC(=O)O[2H].[2H]Cl", "[13CH3]O.Cl>>[13CH3]Cl.O", "[2H]C([2H])([2H])O.CC(=O)O>>CC(=O)OC([2H])([2H])[2H].O",
+           "[3H]c1ccccc1.BrBr>>[3H]c1ccc(Br)cc1.Br", "C[13C](=O)O.CO>>C[13C](=O)OC.O", "[2H]Cl.C=C>>[2H]CCCl", "[15NH3].CC(=O)Cl>>CC(=O)[15NH2].Cl",
+           "[18OH2].CC(=O)OC>>CC(=O)[18OH].CO", "ClCCBr.BrCCCl>>ClCCCCBr.ClBr", "CC=O.C=CO>>CC(O)CC=O", "NCC=O.O=CCN>>NCC(O)C(N)C=O"]
 
 
 def stereo_free(s):
